@@ -15,11 +15,13 @@ package openflow13
 //@ method MarshalBinary() (data, err) [C02]
 //@   ensures[C02] be16(data, 0) == uint16(typecode(self)) && be16(data, 2) == uint16(len(data)) && len(data) % 8 == 0
 //@   ensures[C02] typecode(self) == 65535 ==> be32(data, 4) == 8992 && be16(data, 8) == uint16(nxsubtype(self))
+//@   ensures[C02] len(data) >= 4
 // NXActionHeader is the embedded base of the Nicira actions and never an action on its own.
 //@ exempt Action NXActionHeader
 //@ iface Instruction
 //@ method MarshalBinary() (data, err) [C02]
 //@   ensures[C02] be16(data, 0) == uint16(typecode(self)) && be16(data, 2) == uint16(len(data)) && len(data) % 8 == 0
+//@   ensures[C02] len(data) >= 4
 
 // the 4/10-byte header encoders are inlined at their call sites (callers need their bytes, not only their size)
 //@ func (*ActionHeader).MarshalBinary(a) (data, err)
@@ -92,8 +94,10 @@ package openflow13
 //@     invariant n == uint16(8 + sum(instr.Actions, #k))
 
 //@ func (*InstrActions).MarshalBinary(instr) (data, err)
+//@   ensures[C03] elemsat(data, 8, instr.Actions, len(instr.Actions), "tl")
 //@   loop 1:
 //@     invariant err == nil && len(data) == 8 + sum(instr.Actions, #k) && len(data) % 8 == 0 && be16(data, 0) == instr.Type && be16(data, 2) == instr.Length
+//@     invariant[C03] elemsat(data, 8, instr.Actions, #k, "tl")
 
 // ---------------------------------------------------------------------------------------------
 // match (section 7.2.2, 7.2.3) and match-field payloads (Table 12 / meta-flow.h widths)
@@ -190,11 +194,13 @@ package openflow13
 //@     invariant n == uint16(48 + size(f.Match) + sum(f.Instructions, #k))
 
 //@ func (*FlowMod).MarshalBinary(f) (data, err)
+//@   ensures[C03] f.Command != 3 && f.Command != 4 ==> elemsat(data, 48 + size(f.Match), f.Instructions, len(f.Instructions), "tl")
 //@   ensures[C01] u8(data, 0) == 4 && u8(data, 1) == 14 && be16(data, 2) == uint16(len(data))
 //@   ensures[C13 C01] f.Header.Length == uint16(size(f))
 //@   modifies f.Header.Length
 //@   loop 1:
 //@     invariant err == nil && len(data) == 48 + size(f.Match) + sum(f.Instructions, #k) && u8(data, 0) == f.Header.Version && u8(data, 1) == f.Header.Type && be16(data, 2) == f.Header.Length
+//@     invariant[C03] elemsat(data, 48 + size(f.Match), f.Instructions, #k, "tl")
 
 //@ spec size(f *FlowRemoved) = 48 + size(f.Match)
 //@ spec wf(f *FlowRemoved) = wf(f.Match)
@@ -210,11 +216,13 @@ package openflow13
 //@     invariant n == uint16(16 + sum(g.Buckets, #k))
 
 //@ func (*GroupMod).MarshalBinary(g) (data, err)
+//@   ensures[C03] g.Command != 2 ==> elemsat(data, 16, g.Buckets, len(g.Buckets), "l0")
 //@   ensures[C01] u8(data, 0) == 4 && u8(data, 1) == 15 && be16(data, 2) == uint16(len(data))
 //@   ensures[C13 C01] g.Header.Length == uint16(size(g))
 //@   modifies g.Header.Length
 //@   loop 1:
 //@     invariant err == nil && len(data) == 16 + sum(g.Buckets, #k) && u8(data, 0) == g.Header.Version && u8(data, 1) == g.Header.Type && be16(data, 2) == g.Header.Length
+//@     invariant[C03] elemsat(data, 16, g.Buckets, #k, "l0")
 
 //@ spec size(b *Bucket) = pad8(16 + sum(b.Actions))
 //@ spec wf(b *Bucket) = allwf(b.Actions)
@@ -224,11 +232,13 @@ package openflow13
 //@     invariant n == uint16(16 + sum(b.Actions, #k))
 
 //@ func (*Bucket).MarshalBinary(b) (data, err)
+//@   ensures[C03] elemsat(data, 16, b.Actions, len(b.Actions), "tl")
 //@   ensures[C02] be16(data, 0) == uint16(len(data)) && len(data) % 8 == 0
 //@   ensures[C13 C02] b.Length == uint16(size(b))
 //@   modifies b.Length
 //@   loop 1:
 //@     invariant err == nil && len(data) == 16 + sum(b.Actions, #k) && be16(data, 0) == b.Length
+//@     invariant[C03] elemsat(data, 16, b.Actions, #k, "tl")
 
 //@ spec size(p *PhyPort) = 42 + len(p.HWAddr) + len(p.Name)
 //@ spec wf(p *PhyPort) = len(p.HWAddr) == 6 && len(p.Name) == 16 && len(p.pad) <= 4 && len(p.pad2) <= 2
@@ -259,12 +269,14 @@ package openflow13
 //@     invariant n == uint16(24 + sum(p.Actions, #k))
 
 //@ func (*PacketOut).MarshalBinary(p) (data, err)
+//@   ensures[C03] elemsat(data, 24, p.Actions, len(p.Actions), "tl")
 //@   ensures[C01] u8(data, 0) == 4 && u8(data, 1) == 13 && be16(data, 2) == uint16(len(data))
 //@   ensures[C13 C01] p.Header.Length == uint16(size(p))
 //@   flag notrunc
 //@   modifies p.Header.Length
 //@   loop 1:
 //@     invariant err == nil && n == 24 + sum(p.Actions, #k) && u8(data, 0) == p.Header.Version && u8(data, 1) == p.Header.Type && be16(data, 2) == p.Header.Length
+//@     invariant[C03] elemsat(data, 24, p.Actions, #k, "tl")
 
 //@ spec size(p *PacketIn) = 26 + size(p.Match) + size(p.Data)
 //@ spec wf(p *PacketIn) = wf(p.Match) && wf(p.Data) && len(p.pad) <= 2
@@ -353,8 +365,10 @@ package openflow13
 //@     invariant n == uint16(48 + size(s.Match) + sum(s.Instructions, #k))
 
 //@ func (*FlowStats).MarshalBinary(s) (data, err)
+//@   ensures[C03] elemsat(data, 48 + size(s.Match), s.Instructions, len(s.Instructions), "tl")
 //@   loop 1:
 //@     invariant err == nil && len(data) == 48 + size(s.Match) + sum(s.Instructions, #k)
+//@     invariant[C03] elemsat(data, 48 + size(s.Match), s.Instructions, #k, "tl")
 
 //@ spec size(s *AggregateStatsRequest) = 32 + size(s.Match)
 //@ spec wf(s *AggregateStatsRequest) = wf(s.Match) && len(s.pad) <= 3 && len(s.pad2) <= 4
@@ -450,9 +464,11 @@ package openflow13
 //@ spec nxsubtype(a *NXActionConnTrack) = 35
 
 //@ func (*NXActionConnTrack).MarshalBinary(a) (data, err)
+//@   ensures[C03] elemsat(data, 24, a.actions, len(a.actions), "tl")
 //@   flag notrunc
 //@   loop 1:
 //@     invariant n == 24 + sum(a.actions, #k) && n % 8 == 0 && be16(data, 0) == a.Type && be16(data, 2) == a.Length && be32(data, 4) == a.Vendor && be16(data, 8) == a.Subtype
+//@     invariant[C03] elemsat(data, 24, a.actions, #k, "tl")
 
 //@ spec size(a *NXActionRegLoad) = int(a.Length)
 //@ spec wf(a *NXActionRegLoad) = wf(a.NXActionHeader) && a.Length == 24 && a.DstReg != nil && a.DstReg.Field < 128 && int(a.Subtype) == nxsubtype(a)
